@@ -68,7 +68,7 @@ theorem downQ_downOK (hB : BaseOK B I₀) :
     unfold answerQ
     rcases Zc.respond_ok lower ettl hI.reg (ks.map msgOf) with ⟨_, hr⟩ | ⟨_, hr⟩
     · rw [hr]
-      exact ⟨_, none, rfl, ⟨hI.cache, hI.reg, hI.names, hI.fresh, hI.safe, hI.browsers, hI.rest⟩, by intro q hq; cases hq⟩
+      exact ⟨_, none, rfl, ⟨hI.cache, hI.reg, hI.names, hI.fields, hI.fresh, hI.safe, hI.scheds, hI.browsers, hI.rest⟩, by intro q hq; cases hq⟩
     · rw [hr]
       dsimp only
       rw [perPacket_ok lower ettl hI.reg]
@@ -76,9 +76,9 @@ theorem downQ_downOK (hB : BaseOK B I₀) :
       have hown := respond_records_own lower ettl hI.reg hI.fresh (ks.map msgOf) hr
       obtain ⟨q1, q2⟩ := routeQ_queues lower d.rest.2 d.cache ks u (answerMap lower ettl d.reg (ks.map msgOf))
         (ks.map (fun k => pureQ lower ettl d.reg (knownOf (ks.map msgOf)) (msgOf k).questions))
-      refine ⟨_, _, rfl, ⟨hI.cache, warmed_inv lower hI.reg _, hI.names,
+      refine ⟨_, _, rfl, ⟨hI.cache, warmed_inv lower hI.reg _, hI.names, hI.fields,
         fun s hs => warmed_memo lower (ks.map msgOf) (lower s.name) (fun o ho _ => hI.fresh o ho) s hs rfl,
-        regSafe_of_fields lower ettl (warmed_fields lower d.reg _) hI.safe, hI.browsers,
+        regSafe_of_fields lower ettl (warmed_fields lower d.reg _) hI.safe, hI.scheds, hI.browsers,
         ⟨hI.rest.1, by show QShape _; rw [q1]; exact hI.rest.2.1, by show QShape _; rw [q2]; exact hI.rest.2.2⟩⟩, ?_⟩
       intro q hq
       cases hq
